@@ -688,3 +688,4 @@ EXPLANATION += (' Location-independent additions: GROUP/sort-refines-group-key (
 EXPLANATION += (' Round 6: ' + "PITFALL/stale-sibling (two names unpacked from element 0 of the iterated sequence, one advanced in the loop, the other not); TEMPO/tick-from-table (the tick of a tempo change comes from time_to_tick on the rebuilt table, not from the previous change's stored time).")
 EXPLANATION += (' Round 7: ' + "PITFALL/wrapper-default (a forwarded parameter keeps the callee's default); FIELDS/reader-keeps-every-event (no signature event is skipped on numerator / denominator).")
 EXPLANATION += (' Rounds 9-10: ' + 'FRESH/instrument-per-group located when the reuse branch changes nothing its condition reads; LIMIT/reader-max-tick (the module-level MAX_TICK override folds to at least the pinned 1e10).')
+EXPLANATION += (' Round 12: ' + 'PITFALL/stale-loop-variable over midi_io.')
